@@ -33,18 +33,9 @@ def reqVersionZstd (codec : Int) (isV21 : Bool) (rv : Int) : Int :=
   else
     rv
 
-/-- generated from produce_set.go (*produceSet).buildRequest (fragment starting at `if len(rb.Records) > 0`) -/
-def batchOffsets (n : Int) (lod : Int) : Int :=
-  if (n > 0) then
-    let lod_v1 : Int := (Go.toI32 (Go.sub64 n 1))
-    lod_v1
-  else
-    lod
+-- fun batchOffsets: NOT TRANSLATED: statement for i, record := range rb.Records { record.OffsetDelta = int64(i + 1) } (*ast.RangeStmt) not supported
 
-/-- generated from produce_set.go (*produceSet).buildRequest (fragment starting at `record.OffsetDelta = int64(i)`) -/
-def recordOffsetDelta (i : Int) (od : Int) : Int :=
-  let od_v1 : Int := i
-  od_v1
+-- fun recordOffsetDelta: NOT TRANSLATED: no statement starting with "record.OffsetDelta = int64(i)" in (*produceSet).buildRequest
 
 /-- generated from produce_set.go (*produceSet).buildRequest (fragment starting at `msg.Offset = int64(i)`) -/
 def innerOffset (i : Int) (off : Int) : Int :=
